@@ -167,7 +167,7 @@ namespace link_layer {
         const std::uint8_t* end_of_buffer = buffer + Size;
 
         // set size to 0 to mark force the end_ pointer to wrap here
-        if ( front_ != pdu.buffer && front_ + 1 < end_of_buffer )
+        if ( front_ != pdu.buffer && end_of_buffer - front_ > 1 )
         {
             Layout::header( front_, wrap_mark );
         }
@@ -197,7 +197,7 @@ namespace link_layer {
         const std::uint8_t* end_of_buffer = buffer + Size;
 
         // wrap the end_ pointer to the beginning, if the buffer is not empty
-        if ( end_ != front_ && ( end_ + 1 >= end_of_buffer || end_[ 1 ] == wrap_mark ) )
+        if ( end_ != front_ && ( end_of_buffer - end_ <= 1 || end_[ 1 ] == wrap_mark ) )
             end_ = buffer;
     }
 
